@@ -177,8 +177,16 @@ Local Open Scope list_scope.
 '''
 
 
+def _limit_mem() -> None:
+    import resource
+    cap = 24 * 1024 ** 3  # a runaway coqc must not take the machine down
+    resource.setrlimit(resource.RLIMIT_AS, (cap, cap))
+
+
 def _run(cmd: Sequence[str], timeout: int, cwd: str | None = None) -> subprocess.CompletedProcess:
-    return subprocess.run(list(cmd), cwd=cwd, stdout=subprocess.PIPE, stderr=subprocess.STDOUT, text=True, timeout=timeout)
+    pre = _limit_mem if cmd and cmd[0] == 'coqc' else None
+    return subprocess.run(list(cmd), cwd=cwd, stdout=subprocess.PIPE, stderr=subprocess.STDOUT, text=True, timeout=timeout,
+                          preexec_fn=pre)
 
 
 def ensure_built() -> None:
